@@ -161,6 +161,38 @@ pub fn run(seed: u64, count: usize, thorough: bool, out: &mut Out) {
                 (p, None)
             }
         };
+        // ---- listing the bonds: every stored bond whose two atoms are in the structure is listed, with exactly those two atoms
+        {
+            let (ids, bonds) = internals(&p);
+            let base = ids.iter().chain(bonds.iter().flat_map(|(a, c, _)| [a, c])).copied().min().unwrap_or(0);
+            let atoms: Vec<&Atom> = p.atoms().collect();
+            let listed = crate::guarded(|| {
+                p.bonds()
+                    .map(|(a, c, k)| {
+                        let pa = atoms.iter().position(|x| std::ptr::eq(*x, a)).map_or(-1, |v| v as i128);
+                        let pc = atoms.iter().position(|x| std::ptr::eq(*x, c)).map_or(-1, |v| v as i128);
+                        l(vec![z(pa), z(pc), z(bond_kind(&format!("{k:?}")))])
+                    })
+                    .collect::<Vec<_>>()
+            });
+            let obs = match listed {
+                Some(v) => l(vec![z(atoms.len() as i128), l(v)]),
+                None => y("panic"),
+            };
+            out.case(
+                "C16",
+                call(
+                    "obs",
+                    vec![
+                        l(ids.iter().map(|u| z((*u - base) as i128)).collect()),
+                        l(bonds.iter().map(|(a, c, k)| l(vec![z((*a - base) as i128), z((*c - base) as i128), z(bond_kind(k))])).collect()),
+                    ],
+                ),
+                obs,
+                "prop:bonds-listed",
+                !bonds.is_empty(),
+            );
+        }
         // ---- clone
         let (ids, bonds) = internals(&p);
         let q = crate::guarded(|| p.clone());
